@@ -278,6 +278,27 @@ def limits_and_unsupported(chk: Check, tier: str):
     chk.nontrivial(("unsupported-opcode",))
     if r is None or r.exitcode == 0:
         chk.violation("unsupported-opcode:pass", "check_unsupported(uint256): a path stopped by an unsupported opcode yet the test is PASS", {"halmos_output": (out.stdout + out.logs)[-1500:]})
+    # ... also when the solver that is asked to confirm the stopped path gives no verdict (timeout, crash, garbage): the
+    # path was not explored to its end all the same
+    import json as _json
+    import sys as _sys
+    from pathlib import Path as _P
+
+    stub = str(_P(__file__).resolve().parent.parent / "harness" / "stub_solver.py")
+    wdir = workdir("c10s")
+    try:
+        for kind in ("unknown", "garbage", "nonzero", "empty"):
+            scen = wdir / f"scen-{kind}.json"
+            scen.write_text(_json.dumps({"default": {"kind": kind}, "replies": {}}))
+            out = run_contract(c, funsigs=["check_unsupported(uint256)"], cli=("--solver-command", f"{_sys.executable} -S {stub} {scen}"))
+            r = out.by_sig().get("check_unsupported(uint256)")
+            chk.count("traces_validated_against_impl")
+            chk.nontrivial(("unsupported-opcode", "solver", kind))
+            if r is None or r.exitcode == 0:
+                chk.violation(f"unsupported-opcode:pass:solver-{kind}", f"check_unsupported(uint256): a path stopped by an unsupported opcode, the solver asked about it answers '{kind}': the test is a clean PASS",
+                              {"halmos_output": (out.stdout + out.logs)[-1500:]})
+    finally:
+        cleanup(wdir)
     for sig in ("check_nested_unsupported()", "check_nested2_unsupported()", "check_nested_symbolic(uint256)"):
         out = run_contract(c, funsigs=[sig])
         r = out.by_sig().get(sig)
